@@ -110,6 +110,28 @@ CHECKS = {
         "components": {"real": REAL + ["hint wrapper hook (constraint/verifhook, -tags verif)"], "stub": ["hint answers under fault (byzantine solver oracle)", "commitment challenge in solver-only runs (hash of the committed values)"]},
         "assumptions": ["only the dishonest-prover clause is decided: wires no hint controls are determined by the constraints and are not substituted", "the fault-free equality with the specification is the baseline of the same runs, not a claim over all programs"],
     },
+    "C13": {
+        "engine": "c13",
+        "level": "fault_enumeration",
+        "rule": "one evaluation = one Solve of a gadget circuit under a plan of faulted hint answers (perturbed / swapped / misdirected / replayed / compensated shift between digits / modular alias / quotient shift / sign flip / failed), judged by the gadget's documented semantics on the probed outputs; "
+                "a case = (gadget instance, field, builder, inputs biased to the domain boundaries, fault tape); gadgets: rangecheck (1..253 bits, mixed widths), logderivlookup tables of 1..300 entries with repeated / boundary / out-of-range queries, lookup + rangecheck sharing one circuit",
+        "quick": {"runs": 960, "budget_s": 220, "selftest_runs": 4, "params": {"faults": 16}},
+        "thorough": {"runs": 30000, "budget_s": 2700, "selftest_runs": 6, "params": {"faults": 40}},
+        "expect_probes": ["faulty_answer_rejected", "faulty_answer_accepted", "perturb-output", "misdirected", "replayed", "compensated-shift", "modular-alias", "hint-error"],
+        "components": {"real": REAL + ["hint wrapper hook (constraint/verifhook, -tags verif)"], "stub": ["hint answers under fault (byzantine solver oracle)", "commitment challenge in solver-only runs (hash of the committed values, as under Fiat-Shamir)"]},
+        "assumptions": ["only the dishonest-prover clause is decided; equality with the mathematical result under honest hints is the baseline of the same runs", "the nemesis does not adapt its answers to the commitment challenge (it acts before the commitment, as a real prover must)"],
+    },
+    "C14": {
+        "engine": "c14",
+        "level": "fault_enumeration",
+        "rule": "one evaluation = one Solve of a gadget circuit under a plan of faulted hint answers (perturbed / swapped / misdirected / replayed / compensated shift between digits / modular alias / quotient shift / sign flip / failed), judged by the gadget's documented semantics on the probed outputs; "
+                "a case = (gadget instance, field, builder, inputs biased to the domain boundaries, fault tape); gadgets: cmp.IsLess/IsLessOrEqual/IsEqual, BoundedComparator (IsLess, IsLessEq, Min, AssertIsLessEq, AssertIsLess incl. beyond-bound differences), selector.Mux/Map/Slice/Partition, bitslice.Partition, uints U32 and/or/xor/add/rotate/shift/not/ValueOf, ByteValueOf",
+        "quick": {"runs": 960, "budget_s": 220, "selftest_runs": 4, "params": {"faults": 16}},
+        "thorough": {"runs": 30000, "budget_s": 2700, "selftest_runs": 6, "params": {"faults": 40}},
+        "expect_probes": ["faulty_answer_rejected", "faulty_answer_accepted", "perturb-output", "misdirected", "replayed", "compensated-shift", "modular-alias", "hint-error"],
+        "components": {"real": REAL + ["hint wrapper hook (constraint/verifhook, -tags verif)"], "stub": ["hint answers under fault (byzantine solver oracle)", "commitment challenge in solver-only runs (hash of the committed values, as under Fiat-Shamir)"]},
+        "assumptions": ["only the dishonest-prover clause is decided; equality with the mathematical result under honest hints is the baseline of the same runs", "the nemesis does not adapt its answers to the commitment challenge (it acts before the commitment, as a real prover must)"],
+    },
     "C06": {
         "engine": "c06",
         "level": "exploration",
